@@ -83,7 +83,10 @@ def c05_case(draw):
         cards = draw(st.lists(st.sampled_from(DECK52), min_size=2 + nb,
                               max_size=2 + nb, unique=True))
         nh = 2
-    return dict(cls=cname, hole=cards[:nh], board=cards[nh:])
+    forms = ['str', 'str', 'spaced', 'tuple', 'list', 'iter', 'gen']
+    return dict(cls=cname, hole=cards[:nh], board=cards[nh:],
+                hole_form=draw(st.sampled_from(forms)),
+                board_form=draw(st.sampled_from(forms)))
 
 
 def budget(tier):
@@ -105,15 +108,22 @@ def check(case, stats):
     want = refeval.best(cname, hp, bp)
     out = []
     hs, bs = ''.join(hole), ''.join(board)
+    hf, bf = case.get('hole_form'), case.get('board_form')
+    from .c04 import as_form
+
+    def args():
+        # fresh objects for every call (iterators are one-shot)
+        return as_form(hole, hf), as_form(board, bf)
+
     try:
-        got_none = cls.from_game_or_none(hs, bs)
+        got_none = cls.from_game_or_none(*args())
     except Exception as e:  # noqa: BLE001
         out.append(V(ID, 'from_game_or_none_raised', cname,
                      f'{cname}.from_game_or_none({hs!r},{bs!r}) raised'
                      f' {e!r}'))
         return out
     try:
-        got = cls.from_game(hs, bs)
+        got = cls.from_game(*args())
         raised = None
     except ValueError as e:
         got = None
@@ -123,7 +133,8 @@ def check(case, stats):
                      f'{cname}.from_game({hs!r},{bs!r}) raised {e!r}'
                      ' (ValueError expected when no hand exists)'))
         return out
-    desc = f'{cname}.from_game({hs!r}, {bs!r})'
+    desc = (f'{cname}.from_game({hs!r} as {hf or "str"}, {bs!r} as'
+            f' {bf or "str"})')
     if want is None:
         if got is not None or got_none is not None:
             out.append(V(ID, 'hand_reported_but_none_legal', cname,
@@ -188,6 +199,7 @@ def check(case, stats):
                     nontrivial = True
                     break
     stats.count('cls:' + cname)
+    stats.count(f'forms:{hf or "str"}/{bf or "str"}')
     stats.count('outcome:' + ('none' if want is None else 'hand'))
     if nontrivial:
         stats.count('nontrivial')
